@@ -203,7 +203,7 @@ def rule_translation(check, rules):
         part = None
         pterm = None
         for a, pol in sp.lits:
-            if a[0] == 'eq' and any(show(x) == 'functools.partial' for x in a[1:]):
+            if a[0] in ('eq', 'is') and any(show(x) == 'functools.partial' for x in a[1:]):
                 part = pol
                 pterm = ('COND', ('lit', a, True))
         key0 = 'forward_signatures|translate|partial=%s' % part
